@@ -341,6 +341,39 @@ def run(ctx, rep):
             ok_prov = ok_prov and sorted(defs.get(pv, [])) == sorted(want_p)
     rep.check(ok_prov and len(prov) == 4, "R8", key(ge, None, "each order is counted with its own full matched / remaining size and price"),
               ge, None, "size and price definitions: %s" % {k: v for k, v in defs.items() if k.startswith("_size") or "price" in k})
+    # ... and at its own price on every way to the contribution: line bets are struck at 2.0 (matched part and
+    # remainder alike, whatever else is true of the order), everything else at the order's own price - decided per
+    # contribution by blocking the other side of the LINE_RANGE test and asking which definition of the price
+    # variable every path passes last
+    lr_atom = "order.order_type.price_ladder_definition == 'LINE_RANGE'"
+    lr_conds = [n for n in cfg.live_nodes() if n.kind == "cond" and utext(n.exprs[0]) == lr_atom]
+    bad_price = []
+    for n, c in node_calls(cfg, "append"):
+        r = recv_text(c)
+        if r not in ("mb", "ml", "ub", "ul") or not (isinstance(c.args[0], ast.Tuple) and len(c.args[0].elts) == 2):
+            continue
+        pv = utext(c.args[0].elts[0])
+        own = "order.average_price_matched" if r in ("mb", "ml") else "order.order_type.price"
+        dnodes = [m for m in cfg.live_nodes() if m.kind == "stmt" and isinstance(m.ast, ast.Assign)
+                  and pv in [utext(t) for t in m.ast.targets]]
+        d2 = {m.id for m in dnodes if utext(m.ast.value) == "2.0"}
+        dp = {m.id for m in dnodes if utext(m.ast.value) == own}
+        for line, want, other in ((True, d2, dp), (False, dp, d2)):
+            blocked = {(x.id, "F" if line else "T") for x in lr_conds}
+            reach = cfg.reachable(start, blocked_edges=blocked)
+            if n.id not in reach:
+                continue
+            ok = cfg.all_paths_pass(start, n.id, want, blocked_edges=blocked, blocked_nodes={head.id}) or start in want
+            for o in other & reach:
+                # a definition of the other kind that can still reach the contribution must be overwritten on the way
+                if n.id in cfg.reachable(o, blocked_nodes=want | {head.id}, blocked_edges=blocked, include_src=False):
+                    ok = False
+            if not ok:
+                bad_price.append("%s of a %s order: price variable `%s` is not %s on every path" % (
+                    r, "line" if line else "non-line", pv, "2.0" if line else own))
+    rep.check(bool(lr_conds) and not bad_price, "R8",
+              key(ge, None, "line bets are valued at 2.0 and all others at their own price, on every path to the contribution"),
+              ge, None, "; ".join(bad_price))
     status_atoms = sorted({utext(n.exprs[0]) for n in cfg.live_nodes() if n.kind == "cond"
                            and any(w in utext(n.exprs[0]) for w in ("status", "update_data", "complete"))})
     rep.check(status_atoms == ["order.complete", "order.status in PENDING_STATUS"], "R8",
